@@ -43,7 +43,8 @@ C19(r) == LET o == r.obs IN
     /\ ~o.timedOut /\ ~o.crashText
     /\ o.exit \in {0, 1}
     /\ (o.exit = 1) => o.stderrLen > 0
-    /\ (o.exit = 1 /\ r.sc.args \in {"missing1", "missing2", "notiface2"}) => o.stderrNamesArg
+    \* where the lookup of an argument is what fails (per spec/Cli.tla), the diagnostic names that argument
+    /\ (o.exit = 1 /\ r.pred.stderr \in {"notfound", "notiface"}) => o.stderrNamesArg
 
 (* C15 *)
 C15(r) == LET o == r.obs sc == r.sc IN
